@@ -174,7 +174,7 @@ def replay_truncate(w):
 
 CONV_POOL_SRC = [
     "0", "-7", "True", "False", "None", "1.5", "-0.0", "float('inf')", "float('-inf')", "float('nan')",
-    "10**400", "-(10**400)", "10**30", "'42'", "'42.23'", "' 12 '", "'0x1f'", "'1e400'", "'-1e400'", "'nan'", "'inf'",
+    "10**400", "-(10**400)", "10**30", "'42'", "'42.23'", "' 12 '", "'0x1f'", "'1f'", "'101'", "'1e400'", "'-1e400'", "'nan'", "'inf'",
     "'abc'", "''", "'1_000'", "'٣'", "[]", "[1]", "()", "{}", "{'a': 1}", "set()", "b'12'", "'9' * 5000", "1e308 * 10", "2**1024",
 ]
 
@@ -289,13 +289,18 @@ class Conv(VC):
 
     def concretize(self, model, pre, out):
         want = self.path_trace(out)
+        fallback = None
         for src in CONV_POOL_SRC:
             v = eval(src)
             if isinstance(v, str) != self.is_str:
                 continue
-            if conv_outcomes(v, [n for n, _ in want]) == want:
-                return {"filter": self.which, "value_src": src, "trace": want}
-        return None
+            for base in ((10, 16, 2, 8) if (self.is_str and self.which == "int") else (10,)):
+                if conv_outcomes(v, [n for n, _ in want], base) == want:
+                    w = {"filter": self.which, "value_src": src, "base": base, "trace": want}
+                    if replay_conv(w)[0]:
+                        return w
+                    fallback = fallback or w
+        return fallback
 
     def describe(self, out):
         return f"{self.variant} value, conversions {self.path_trace(out)}: " + VC.describe(self, out)
@@ -313,13 +318,15 @@ def replay_conv(w):
     v = eval(w["value_src"])
     default = object()
     fn = F.do_int if w["filter"] == "int" else F.do_float
+    base = int(w.get("base", 10))
     try:
-        r = fn(v, default)
+        r = fn(v, default, base) if w["filter"] == "int" else fn(v, default)
     except Exception as ex:  # noqa
         return (True, f"{w['value_src']}|{w['filter']} raised {type(ex).__name__}: {ex}")
-    want = spec_conv(w["filter"], v, default)
+    want = spec_conv(w["filter"], v, default, base)
     bad = (r is not default) if want is default else (r is default or r != want)
-    return (bad, f"{w['value_src']}|{w['filter']} -> {'default' if r is default else repr(r)}")
+    return (bad, f"{w['value_src']}|{w['filter']}{'(base=%d)' % base if base != 10 else ''} -> {'default' if r is default else repr(r)}, "
+                 f"documented: {'default' if want is default else repr(want)}")
 
 
 # =====================================================================================
@@ -719,6 +726,19 @@ _WS = re.compile(r"\s+")
 WRAP_ALPHA = ["a", "b", " ", "\n", "<", "-", "\t"]
 
 
+def _breaks(text, hyphens=False):
+    """positions (counted in non-whitespace characters) at which the text has white space (or may be broken next to a hyphen)"""
+    out, n = set(), 0
+    for i, c in enumerate(text):
+        if c.isspace():
+            out.add(n)
+        else:
+            n += 1
+            if hyphens and c == "-":
+                out.update((n - 1, n))  # textwrap also sets a double hyphen (em-dash) apart: before or after a hyphen
+    return out
+
+
 def cases_wordwrap(tier, seed):
     for s in strings(WRAP_ALPHA, 5):
         for width in (1, 2, 3):
@@ -742,6 +762,9 @@ def check_wordwrap(w):
     ok = _WS.sub("", text) == _WS.sub("", s)  # all non-whitespace text, in order, nothing added
     if w["break_long_words"]:
         ok = ok and all(len(l) <= w["width"] for l in lines)
+    elif ok:
+        # long words may not be broken: a line break falls where the text had white space, or (break_on_hyphens) after a hyphen
+        ok = _breaks(sep.join(lines) if sep.strip() == "" else "\n".join(lines)) <= _breaks(s, w["break_on_hyphens"])
     return (not ok, f"do_wordwrap({s!r}, width={w['width']}, break_long_words={w['break_long_words']}, "
                     f"wrapstring={w['wrapstring']!r}, break_on_hyphens={w['break_on_hyphens']}) = {r!r}")
 
@@ -853,7 +876,7 @@ def check_urlencode(w):
     from urllib.parse import unquote, parse_qsl
     if w["kind"] == "str":
         r = F.do_urlencode(w["s"])
-        bad = unquote(r) != w["s"] or not _URL_OK.match(r)
+        bad = unquote(r) != w["s"] or not _URL_OK.match(r) or r.count("/") != w["s"].count("/")  # "/" is not quoted
         return (bad, f"do_urlencode({w['s']!r}) = {r!r}")
     if w["kind"] == "scalar":
         r = F.do_urlencode(w["value"])
